@@ -22,13 +22,13 @@ FLOORS = {
     "quick": {"symbols_roundtripped": 60000, "n_symbol_x_rd": 536, "n_data_pairs_x_rd": 30000, "run_length_windows_checked": 800000,
               "comma_windows_checked": 500000, "rd_checks": 90000, "disparity_flag_checks": 80000, "n_invalid_words": 2048,
               "invalid_flag_checks": 60000, "stream_histories": 100, "stream_tokens_delivered": 6000, "n_stream_schedules": 30,
-              "stream_stalled_cycles": 3000, "ce_low_cycles": 2000, "n_configs": 8, "control_roundtrips": 3000,
-              "triples_streamed": 20000},
-    "thorough": {"symbols_roundtripped": 1500000, "n_symbol_x_rd": 536, "n_data_pairs_x_rd": 131072, "run_length_windows_checked": 15000000,
-                 "comma_windows_checked": 8000000, "rd_checks": 1500000, "disparity_flag_checks": 1500000, "n_invalid_words": 2048,
-                 "invalid_flag_checks": 1500000, "stream_histories": 2000, "stream_tokens_delivered": 200000, "n_stream_schedules": 60,
-                 "stream_stalled_cycles": 60000, "ce_low_cycles": 50000, "n_configs": 8, "control_roundtrips": 50000,
-                 "triples_streamed": 1000000}}
+              "stream_stalled_cycles": 3000, "ce_low_cycles": 2000, "n_configs": 16, "control_roundtrips": 3000,
+              "triples_streamed": 20000, "exhaustive_symbol_sweeps": 8, "pairs_streamed": 32768},
+    "thorough": {"symbols_roundtripped": 1200000, "n_symbol_x_rd": 536, "n_data_pairs_x_rd": 131072, "run_length_windows_checked": 20000000,
+                 "comma_windows_checked": 14000000, "rd_checks": 2000000, "disparity_flag_checks": 1800000, "n_invalid_words": 2048,
+                 "invalid_flag_checks": 1200000, "stream_histories": 2000, "stream_tokens_delivered": 120000, "n_stream_schedules": 40,
+                 "stream_stalled_cycles": 200000, "ce_low_cycles": 300000, "n_configs": 16, "control_roundtrips": 300000,
+                 "triples_streamed": 2000000, "exhaustive_symbol_sweeps": 24, "pairs_streamed": 262144}}
 SHARD_TIMEOUT = {"quick": 900, "thorough": 3000}
 N_SAMPLES = 6
 EXHAUSTIVE = {
@@ -71,7 +71,7 @@ def plan(tier, seed):
                     "lsb": lsb, "seed": "%d/C17/pairs/%s/%d" % (seed, cname, j)}
             shards.append({"id": "pair%s%02d" % (cname, j), "cls": "pairs", "cases": [case]})
     # mixed
-    ncase, nsym, nsh = (32, 800, 16) if q else (800, 3000, 64)
+    ncase, nsym, nsh = (32, 800, 16) if q else (600, 2500, 64)
     cs = []
     for i in range(ncase):
         cs.append({"kind": "mixed", "nwords": 1 + i % 4, "lsb": (i >> 2) & 1, "ce": ["always", "b70", "bursts"][i % 3],
